@@ -35,6 +35,7 @@ inductive Expr where
   | call (fn : String) (args : List Expr)   -- text of the shape `fn(a, b, …)` written by a planner
   | orderBy (e : Expr) (d : Dir)            -- OrderBy
   | sub (s : Sel)                           -- a sub-select used as an object
+  | setop (kind : String) (sels : List Sel) -- `(s1 INTERSECT s2 …)` / `(s1 UNION ALL s2 …)`, operands with their own WITH
 inductive Sel where
   | mk (withs : List (Alias × Sel)) (distinct : Bool) (cols : List Expr) (from_ : Option Expr)
        (joins : List (String × Alias × Expr)) (preWhere wher : Option Expr) (groupBy : List Expr)
@@ -72,6 +73,10 @@ def renderExpr : Expr → Bytes
   | .call fn args => b fn ++ b "(" ++ joinB (b ", ") (renderExprs args) ++ b ")"
   | .orderBy e d => renderExpr e ++ (match d with | .asc => b " asc" | .desc => b " desc")
   | .sub s => renderSel s
+  | .setop k ss => b "(" ++ joinB (b " " ++ b k ++ b " ") (renderSels ss) ++ b ")"
+def renderSels : List Sel → List Bytes
+  | [] => []
+  | s :: ss => renderSel s :: renderSels ss
 def renderExprs : List Expr → List Bytes
   | [] => []
   | o :: os => renderExpr o :: renderExprs os
